@@ -56,9 +56,10 @@ Hypothesis L : SpaceLaws S.
 Lemma is_deriv_affine (A D : car S -> car S) (x : car S) :
   (exists C, 0 <= C /\ forall h, norm S (D h) <= C * norm S h) ->
   (forall h, A (sadd S x h) = sadd S (A x) (D h)) ->
+  is_linmap S S D ->
   is_deriv S S A x D.
 Proof.
-  intros Hb Ha. split; [assumption|]. intros eps He. exists 1. split; [lra|]. intros h _.
+  intros Hb Ha Hlin. split; [assumption|]. split; [|assumption]. intros eps He. exists 1. split; [lra|]. intros h _.
   rewrite Ha, (add_cancel_mid S L), (sub_self S L), (norm_zero S L).
   pose proof (norm_nonneg S h). nra.
 Qed.
@@ -68,6 +69,8 @@ Proof.
   apply is_deriv_affine.
   - exists (Rabs s). split; [apply Rabs_pos|]. intro h. rewrite (norm_scal S L). lra.
   - intro h. apply (scal_add_r S L).
+  - split; [intros; apply (scal_add_r S L)|].
+    intros a u. rewrite !(scal_scal S L). f_equal. ring.
 Qed.
 Lemma is_deriv_mult (v : car S) (x : car S) : is_deriv S S (smul S v) x (smul S v).
 Proof.
@@ -76,6 +79,7 @@ Proof.
     { apply Rmult_le_pos; [assumption|apply norm_nonneg]. }
     intro h. apply Hb.
   - intro h. apply (mul_add_r S L).
+  - split; [intros; apply (mul_add_r S L)|intros; apply (mul_scal_r S L)].
 Qed.
 Lemma is_deriv_translate (t : car S) (x : car S) :
   is_deriv S S (fun y => @ssub R _ S y t) x (fun h => h).
@@ -83,12 +87,14 @@ Proof.
   apply is_deriv_affine.
   - exists 1. split; [lra|]. intro h. lra.
   - intro h. apply (add_sub_swap S L).
+  - split; intros; reflexivity.
 Qed.
 Lemma is_deriv_id (x : car S) : is_deriv S S (fun y => y) x (fun h => h).
 Proof.
   apply is_deriv_affine.
   - exists 1. split; [lra|]. intro h. lra.
   - intro h. reflexivity.
+  - split; intros; reflexivity.
 Qed.
 
 (* x -> x*x pointwise (PowerOperator with exponent 2) *)
@@ -96,7 +102,7 @@ Lemma is_deriv_square (x : car S) :
   is_deriv S S (fun y => smul S y y) x (fun h => smul S (sscal S 2 x) h).
 Proof.
   destruct (norm_mul S L x x) as [C [HC Hb]].
-  split.
+  split; [|split].
   - exists (C * norm S (sscal S 2 x)). split.
     { apply Rmult_le_pos; [assumption|apply norm_nonneg]. }
     intro h. apply Hb.
@@ -121,6 +127,7 @@ Proof.
         nra. }
       lra. }
     nra.
+  - split; [intros; apply (mul_add_r S L)|intros; apply (mul_scal_r S L)].
 Qed.
 End Affine.
 
@@ -416,9 +423,20 @@ End Operators.
 Lemma op_shift_sound (S1 S2 : RSpace) (L2 : SpaceLaws S2) (A : Oper S1 S2) (t : car S2) x :
   op_sound A x -> op_sound (op_shift A t) x.
 Proof.
-  intros [D [[Hb HA] Hadj]]. exists D. split; [split; [assumption|]|exact Hadj].
+  intros [D [[Hb [HA Hlin]] Hadj]]. exists D. split; [split; [assumption|split; [|assumption]]|exact Hadj].
   intros eps He. destruct (HA eps He) as [dl [Hdl Hbd]]. exists dl. split; [assumption|].
   intros h Hh. cbn [op_shift op_app]. rewrite (sub_sub_cancel S2 L2). auto.
+Qed.
+
+(* OperatorComp: A o B is sound at x when B is sound at x and A at B x *)
+Lemma op_comp_sound (S1 S2 S3 : RSpace) (L1 : SpaceLaws S1) (L2 : SpaceLaws S2) (L3 : SpaceLaws S3)
+      (A : Oper S2 S3) (B : Oper S1 S2) x :
+  op_sound B x -> op_sound A (op_app B x) -> op_sound (op_comp A B) x.
+Proof.
+  intros [DB [HDB HadjB]] [DA [HDA HadjA]].
+  exists (fun h => DA (DB h)). split.
+  - apply (is_deriv_comp S1 S2 S3 L2 L3 (op_app B) (op_app A) x DB DA); assumption.
+  - intros h y. cbn [op_comp op_dadj]. rewrite HadjA, HadjB. reflexivity.
 Qed.
 
 (* ----------------------------------------------------- overload layer *)
